@@ -8,6 +8,7 @@
 
 #include <cmath>
 #include <cstdio>
+#include <sstream>
 #include <string>
 #include <string_view>
 #include <vector>
@@ -159,6 +160,69 @@ inline mj::Value projectChildren(JsonVariantConst v, mj::Value& out, bool isObje
   return kids;
 }
 
+// Derived read operations (JsonValue.tla: OrElse, SerCompose): defaults through operator| and the
+// serialization of every SUB-value, decided from the projected kind t (not from is<T>() again).
+inline void derivedReads(JsonVariantConst v, mj::Value& out, const std::string& t) {
+  // v | default : the value when the variant holds that kind, the default otherwise
+  if (t == "i") {
+    if (v.is<long long>()) {
+      if ((v | 12345LL) != v.as<long long>()) setBad(out, "integer | default did not give the integer");
+    } else if ((v | 12345ULL) != v.as<unsigned long long>()) setBad(out, "unsigned | default did not give the value");
+  } else {
+    if ((v | 12345LL) != 12345LL || (v | 7U) != 7U || (v | (short)-3) != -3)
+      setBad(out, "non-integer | integer default did not give the default");
+  }
+  if (t == "i" || t == "f") {
+    double d = v | 2.5, a = v.as<double>();
+    if (!(d == a || (d != d && a != a))) setBad(out, "number | double default did not give the number");
+  } else if ((v | 2.5) != 2.5 || (v | 1.25f) != 1.25f) setBad(out, "non-number | float default did not give the default");
+  if (t == "b") {
+    if ((v | true) != v.as<bool>() || (v | false) != v.as<bool>()) setBad(out, "bool | default did not give the bool");
+  } else if ((v | true) != true || (v | false) != false) setBad(out, "non-bool | bool default did not give the default");
+  static const char dflt[] = "dflt";
+  const char* p = v | dflt;
+  std::string ds = v | std::string("dflt");
+  if (t == "s") {
+    if (p != v.as<const char*>()) setBad(out, "string | const char* default did not give the string");
+    JsonString s = v.as<JsonString>();
+    if (ds != std::string(s.c_str() ? s.c_str() : "", s.size())) setBad(out, "string | std::string default did not give the bytes");
+  } else if (p != dflt || ds != "dflt") setBad(out, "non-string | string default did not give the default");
+
+  // serialization of a sub-value: every destination agrees, containers are composed of their children
+  std::string text;
+  size_t n = serializeJson(v, text);
+  if (n != text.size() || measureJson(v) != n) setBad(out, "serializeJson/measureJson of a sub-value disagree on the length");
+  std::ostringstream os;
+  os << v;
+  if (os.str() != text) setBad(out, "ostream << value differs from serializeJson(value)");
+  if (t == "a" || t == "o") {
+    std::string want(t == "a" ? "[" : "{");
+    bool first = true;
+    if (t == "a") {
+      for (JsonVariantConst e : v.as<JsonArrayConst>()) {
+        std::string part;
+        serializeJson(e, part);
+        if (!first) want += ",";
+        first = false;
+        want += part;
+      }
+    } else {
+      for (JsonPairConst kv : v.as<JsonObjectConst>()) {
+        JsonDocument kd;
+        kd.set(kv.key());
+        std::string kpart, part;
+        serializeJson(kd, kpart);
+        serializeJson(kv.value(), part);
+        if (!first) want += ",";
+        first = false;
+        want += kpart + ":" + part;
+      }
+    }
+    want += (t == "a" ? "]" : "}");
+    if (want != text) setBad(out, "serialization of a container is not composed of its members' serializations");
+  }
+}
+
 inline mj::Value project(JsonVariantConst v, int depth) {
   if (depth > 64) { mj::Value x = node("x", ""); setBad(x, "too deep"); return x; }
   if (v.isUnbound()) {
@@ -247,6 +311,7 @@ inline mj::Value project(JsonVariantConst v, int depth) {
   if (t != "a" && !v.as<JsonArrayConst>().isNull()) setBad(out, "as<JsonArrayConst> bound for a non-array");
   if (t != "o" && !v.as<JsonObjectConst>().isNull()) setBad(out, "as<JsonObjectConst> bound for a non-object");
   if (!v.is<JsonVariantConst>()) setBad(out, "bound value is not is<JsonVariantConst>");
+  derivedReads(v, out, t);
   return out;
 }
 
